@@ -24,7 +24,10 @@ THEOREMS = ['Tbox.C04.C04_every_subscriber_once', 'Tbox.C04.C04_chain_old_handle
             'Tbox.C04.C04_chained_delivery_never_resets', 'Tbox.C04.C04_direct_delivery_resethand', 'Tbox.C04.C04_resethand_chain_counterexample',
             'Tbox.C04.C04_chain_env_counterexample', 'Tbox.C04.C04_mask_kernel', 'Tbox.C04.C04_head_page_capacity',
             'Tbox.C04.C04_consumed_head_counterexample', 'Tbox.C04.C04_sibling_keeps_subscription', 'Tbox.C04.C04_state_derived_histories',
-            'Tbox.C04.baseDisp_step']
+            'Tbox.C04.baseDisp_step',
+            # round 6: pipe2 answered with EMFILE / ENFILE (oracle), a thread blocked in a system call (SA_RESTART of the installed disposition)
+            'Tbox.C04.C04_pipe2_failure', 'Tbox.C04.C04_pipe2_failure_reachable', 'Tbox.C04.C04_pipe2_failure_example',
+            'Tbox.C04.C04_blocked_call_while_subscribed', 'Tbox.C04.C04_restart_env_counterexample', 'Tbox.C04.enableP_inv']
 LIBS = ['-ldl']
 SOURCES = vlib.EVENT_SOURCES + vlib.BASE_SOURCES
 FLAVOUR = 'asan'
@@ -47,7 +50,12 @@ TRUSTED = ['model lean/TboxModel/C04/Model.lean hand-written from common_loop_si
            'HANDLER only (Linux keeps flags and mask) and only when the kernel itself runs that handler; the kernel clears SIGKILL/SIGSTOP from '
            'sa_mask; a handler sees its own signal blocked unless SA_NODEFER plus sa_mask of the INSTALLED disposition and runs on the alternate '
            'stack iff SA_ONSTACK of the installed disposition (`M env=`); a pipe is a ring of pages, a page is reusable once wholly read '
-           '(capacity with h numbers of the first page consumed = F_GETPIPE_SZ/4 - h)']
+           '(capacity with h numbers of the first page consumed = F_GETPIPE_SZ/4 - h)',
+           'round 6: the interposed pipe2 answers EMFILE / ENFILE at the enable() chosen by the op file (`enp e`, script action `p<j>`); the flags / mask of '
+           'tbox\'s OWN handler are compared as a model-internal observable (`M own=`; the P line shows only THAT tbox\'s handler is installed), every application '
+           'disposition (saved, restored, untouched) stays on the P line with all fields; `blk g`: a helper thread really blocked in read() on an empty pipe receives g '
+           '(pthread_kill); kernel semantics assumed and checked on every run: SA_RESTART of the INSTALLED disposition decides between restart and EINTR, an ignored '
+           'signal does not disturb the call (`M blk=`; no timing: the harness waits for the kernel\'s own report in /proc/self/task/<tid>/stat that the thread sleeps)']
 ASSUMPTIONS = ['signals SIGKILL, SIGUSR1, SIGUSR2, SIGSTOP, SIGRTMIN+1, SIGRTMIN+2, SIGRTMAX (ids 0..6) and the invalid numbers 65, INT_MAX, 0, -3, 32 (ids 7..11)',
                'all three initialize() overloads are exercised; the int / initializer_list overloads ADD to the set of the event (observed, outside the statement)',
                'the user does not call sigaction() on a signal while tbox\'s handler is installed for it, and never combines SIG_IGN with SA_SIGINFO',
@@ -61,7 +69,10 @@ ASSUMPTIONS = ['signals SIGKILL, SIGUSR1, SIGUSR2, SIGSTOP, SIGRTMIN+1, SIGRTMIN
                'later disable()/delete of them is a use-after-free whatever the destructor does; the `lost l` op pins the observed behaviour down as M lines)',
                'SA_RESETHAND on the disposition saved at the first subscription: tbox chains that handler on EVERY delivery (the statement: "still invoked") and restores the '
                'saved sigaction whole; the kernel alone would have reset it after the first delivery (C04_resethand_chain_counterexample); its SA_NODEFER / sa_mask / '
-               'SA_ONSTACK / SA_RESTART are not in force while tbox\'s handler (SA_SIGINFO, empty mask) is installed (C04_chain_env_counterexample; outside the statement)',
+               'SA_ONSTACK / SA_RESTART are not in force while tbox\'s handler (SA_SIGINFO, empty mask) is installed (C04_chain_env_counterexample, C04_restart_env_counterexample: '
+               'a read() blocked on another thread gets EINTR where the application\'s own SA_RESTART disposition would have restarted it; outside the statement, tied by `blk`)',
+               'pipe2 failing (EMFILE / ENFILE) is an oracle of enable() (Op.enableP / Act.enableP): every theorem over reachable states now quantifies over histories with such '
+               'failures at any enable(), also inside callbacks; other descriptor-exhaustion effects (epoll_ctl of the pipe\'s FdEvent, new FdEvent allocation) are not injected',
                'C04_disposition_restored: besides the application\'s own sigaction calls only the kernel\'s SA_RESETHAND reset on a DIRECT delivery changes a disposition '
                '(hypothesis kresets = 0: no such delivery in between; never one while somebody is subscribed)',
                'C04_every_subscriber_once (exactly once) assumes the callbacks of the subscribers of that signal do not change subscriptions; '
@@ -73,7 +84,9 @@ RULE = ('op sequences (new/init/enable/disable/delete of signal events on 1-3 lo
         '0 / negative / 32 / 64 / 65 / INT_MAX, the accumulating initialize() overloads; round 5: user dispositions with every sa_flags bit incl. SA_RESETHAND (sign bit) and '
         '64-bit masks around 2^31/2^32/2^63 chained and restored, direct deliveries with kernel reset, partial reads of a full one-page pipe then deliveries '
         '(consumed first page), state-derived follow-ups on one event: enable twice / same set re-initialised while enabled / duplicate signal in one list / '
-        'sibling of the same loop and signal leaves / enable-disable-enable inside its own callback, a loop destroyed with subscribers) from props/C04/plugin.py; non-trivial = the model run restores at least one saved disposition AND some '
+        'sibling of the same loop and signal leaves / enable-disable-enable inside its own callback, a loop destroyed with subscribers; round 6: enable() with pipe2 answered by '
+        'EMFILE / ENFILE (first enable of a loop, after the pipe was closed again, pipe open = not called, inside callbacks, other loops subscribed, invalid first signal) then recovery, '
+        'deliveries to a thread blocked in read() under user dispositions with / without SA_RESTART, SIG_IGN, and under tbox\'s handler) from props/C04/plugin.py; non-trivial = the model run restores at least one saved disposition AND some '
         'pass delivers at least one callback (driver tags restore + pass-cb1/pass-cbN); distinct = distinct op text')
 
 INVALID = [0, 3, 7, 8, 9, 10, 11]
@@ -400,7 +413,69 @@ def gen_numbers(rng):
     return ops
 
 
+def gen_pipefail(rng):
+    """round 6, lesson (b): pipe2 of CreateFdPair answered with EMFILE / ENFILE at an enable() chosen by the op file: first enable of a loop, enable after
+    the loop's pipe was closed again, enable of a second event while the pipe is open (pipe2 not called: succeeds), inside a callback (p<j>), with
+    other loops subscribed to the same signal (their handler / saved disposition untouched), multi-signal sets incl. an invalid first signal; then
+    recovery: the plain enable() succeeds as if nothing had happened"""
+    ops = ['eng ' + rng.choice('es'), rand_sa(rng, 1).replace(' d ', ' h0 ').replace(' i ', ' a2 '), 'sa 2 %s %d %d' % (rng.choice(['h1', 'a0', 'i']), rng.choice([0, 1, 5, 36]), rng.choice(WIDE_MASKS))]
+    nl = rng.choice([1, 2, 3])
+    n = rng.choice([2, 3, 4])
+    for e in range(n):
+        sc = '-'
+        if rng.random() < 0.4:
+            j = rng.randrange(n)
+            sc = rng.choice(['p%d' % j, 'd%d,p%d' % (j, j), 'p%d,e%d' % (j, j), 'i%d:2:p,p%d' % (j, j)])
+        ops += ['new %d %s' % (e % nl, sc), 'init %d %s %s' % (e, rng.choice(['1', '1', '1,2', '2', '0,1', '1,3', '2,6']), rng.choice('oppp'))]
+    for _ in range(rng.choice([4, 8, 14])):
+        e = rng.randrange(n)
+        r = rng.random()
+        if r < 0.35: ops.append('enp %d' % e)
+        elif r < 0.55: ops.append('en %d' % e)
+        elif r < 0.75: ops.append('dis %d' % e)
+        elif r < 0.85: ops += ['enp %d' % e, 'en %d' % e]          # failure, then recovery
+        else: ops.append('init %d %s %s' % (e, rng.choice(['1', '2', '1,2']), rng.choice('op')))
+        if rng.random() < 0.6:
+            ops += ['raise %d' % rng.choice([1, 1, 2])] + ['pass %d' % l for l in range(nl) if rng.random() < 0.8]
+    for e in range(n): ops.append('en %d' % e)
+    ops += ['raise 1', 'raise 2'] + ['pass %d' % l for l in range(nl)]
+    order = list(range(n)); rng.shuffle(order)
+    for e in order: ops.append(rng.choice(['dis %d', 'del %d']) % e)
+    ops += ['enp %d' % order[0], 'raise 1', 'raise 2']
+    return ops
+
+
+def gen_blocked(rng):
+    """round 6: a thread really blocked in read() gets the signal: SA_RESTART of the INSTALLED disposition decides (user's own: restarted / EINTR;
+    tbox's handler while somebody is subscribed: EINTR even when the saved disposition has SA_RESTART; SIG_IGN: undisturbed)"""
+    g = rng.choice([1, 2, 4, 6])
+    fl = rng.choice([1, 1, 1, 0, 3, 5, 9, 8, 33])
+    ops = ['eng ' + rng.choice('es'), 'sa %d %s %d %d' % (g, rng.choice(['h0', 'a1', 'h2', 'i', 'a2']), fl, rng.choice([0, 0, 5, 1 << 33])), 'blk %d' % g]
+    nl = rng.choice([1, 2])
+    for l in range(nl):
+        ops += ['new %d -' % l, 'init %d %d %s' % (l, g, rng.choice('oppp')), 'en %d' % l]
+        if rng.random() < 0.6: ops.append('blk %d' % g)
+    ops += ['blk %d' % g] + ['pass %d' % l for l in range(nl)]
+    if rng.random() < 0.5: ops += ['raise %d' % g, 'blk %d' % g, 'pass 0']
+    for l in range(nl):
+        ops.append(rng.choice(['dis %d', 'del %d']) % l)
+        if rng.random() < 0.5: ops.append('blk %d' % g)
+    ops += ['blk %d' % g, 'blk %d' % g]
+    return ops
+
+
 DIRECTED = [
+    # round 6: pipe2 fails (EMFILE / ENFILE) at the first enable of loop 0 while loop 1 is subscribed to the same signal: false, nothing subscribed, handler and saved
+    # disposition untouched, the delivery reaches loop 1 only; the plain enable then succeeds; with the pipe open pipe2 is not called; after the pipe is closed it is again
+    ['eng e', 'sa 1 h0 1 5', 'sa 2 a1 36 4294967296', 'new 0 -', 'new 1 -', 'new 0 -', 'init 0 1,2 p', 'init 1 1 p', 'init 2 2 o', 'enp 0', 'raise 1', 'pass 0', 'en 1', 'enp 0', 'raise 1',
+     'raise 2', 'pass 0', 'pass 1', 'en 0', 'enp 2', 'enp 0', 'raise 2', 'raise 1', 'pass 0', 'pass 1', 'dis 0', 'pass 0', 'enp 2', 'enp 0', 'en 2', 'dis 2', 'dis 1', 'enp 1', 'raise 1', 'raise 2'],
+    # pipe2 fails inside a callback (event 1 of loop 1, no pipe there) and for a set whose first signal is invalid (pipe2 comes before sigaction)
+    ['eng s', 'sa 1 i 0 0', 'new 0 p1,p2', 'new 1 -', 'new 2 d0,p0', 'init 0 1 p', 'init 1 1 p', 'init 2 0,1 p', 'en 0', 'raise 1', 'pass 0', 'pass 1', 'en 1', 'raise 1', 'pass 0', 'pass 1',
+     'enp 2', 'en 2', 'init 2 1 p', 'en 2', 'raise 1', 'pass 2', 'raise 1', 'pass 2', 'pass 0', 'dis 0', 'dis 1', 'dis 2', 'raise 1'],
+    # round 6: a thread blocked in read(): the user's SA_RESTART handler restarts the call; with a subscriber tbox's handler (no SA_RESTART) is installed and the same call
+    # gets EINTR (C04_restart_env_counterexample); restored afterwards; no SA_RESTART: EINTR either way; SIG_IGN: undisturbed, with a subscriber: EINTR; SIG_DFL: not delivered
+    ['eng e', 'sa 1 h0 1 0', 'sa 2 a1 0 0', 'sa 4 i 1 0', 'blk 1', 'blk 2', 'blk 4', 'blk 5', 'new 0 -', 'init 0 1,2,4 p', 'en 0', 'blk 1', 'blk 2', 'blk 4', 'pass 0', 'dis 0', 'blk 1', 'blk 2', 'blk 4',
+     'blk 0', 'blk 3', 'blk 7'],
     # round 5: SA_RESETHAND|SA_NODEFER|SA_ONSTACK|SA_NOCLDWAIT + a mask with bits 0, 2, 63 on the OLD disposition: chained by every delivery,
     # restored whole by the last of two loops, then the kernel's own reset on a direct delivery (handler only), then "killed"
     ['eng e', 'sa 1 a2 46 9223372036854775813', 'new 0 -', 'new 1 -', 'init 0 1 p', 'init 1 1 o', 'en 0', 'raise 1', 'en 1', 'raise 1', 'raise 1', 'pass 0',
@@ -503,6 +578,10 @@ def gen(rng, tier):
         yield gen_state_derived(rng)
     for _ in range(n // 12):
         yield gen_head(rng, tier)
+    for _ in range(n // 5):
+        yield gen_pipefail(rng)
+    for _ in range(n // 10):
+        yield gen_blocked(rng)
 
 
 def fingerprint(ops, d):
@@ -549,7 +628,7 @@ LEVEL_TEXT = ('Lean 4 theorems over a model of the process-wide signal bookkeepi
               'interposed pipe2/close/sigprocmask/sigaction/write/read, ASan+UBSan build of the working tree)')
 LEVEL_NOTE = ('trusted: Lean kernel, hand-written model + trace-acceptor tie (coverage bounded by the generator, measured), kernel signal semantics; '
               'not covered by the tie: a delivery on another thread while a subscription change is in progress (modelled at step level only; the C++ '
-              'data race on std::map/std::set in that window is outside the statement\'s quantifier), SA_RESTART of the installed disposition (no thread is blocked in a system call when a signal arrives), destruction of a loop with '
+              'data race on std::map/std::set in that window is outside the statement\'s quantifier), destruction of a loop with '
               'subscribed events (observed through `lost`, not modelled: outside the statement), fork()')
 TECHNIQUE = 'Lean 4 invariant proof over all op lists of a signal-bookkeeping model + model/implementation correspondence check'
 DESIGN_REF = 'DESIGN.md §6 C04'
